@@ -31,7 +31,7 @@ func (regWorld) Name() string { return "W-REG" }
 
 var regNamePool = []string{"http://sim.example/psa/a", "http://sim.example/psa/b", "http://sim.example/psa/c", "urn:sim:psa:d",
 	"http://sim.example/psa/e", "https://sim.example/f", "http://sim.example/psa/g", "http://sim.example/h",
-	"ACME_IOT_PROFILE_7", "sim profile 8", "ACME_IOT_PROFILE_7 ", " SIM_PADDED "}
+	"ACME_IOT_PROFILE_7", "sim profile 8", "ACME_IOT_PROFILE_7 ", " SIM_PADDED ", "http://sim.example/psa?a=1&b=<2>"}
 
 // nameVariants: spellings that differ from a name only by letter case or by
 // surrounding white space. They are different names; unless registered
@@ -59,10 +59,10 @@ func nameVariants(names []string) []string {
 
 const unknownName = "http://unknown.example/never-registered"
 
-var regKinds = []string{"xp2", "xp1", "own", "opt", "two", "str", "xp1n", "loca", "locb", "xp2", "xp1", "own", "opt", "two", "str", "xp1n", "loca", "locb", "noprof", "notag", "ptremb"}
+var regKinds = []string{"xp2", "xp1", "own", "opt", "two", "str", "xp1n", "loca", "locb", "xp2", "xp1", "own", "opt", "two", "str", "xp1n", "loca", "locb", "near", "noprof", "notag", "ptremb", "near265"}
 
 // kinds whose claims carry an eat.Profile, i.e. whose name must be a URI or an OID
-var kindNeedsURI = map[string]bool{"xp2": true, "own": true, "opt": true, "two": true, "loca": true, "locb": true}
+var kindNeedsURI = map[string]bool{"xp2": true, "own": true, "opt": true, "two": true, "loca": true, "locb": true, "near": true}
 
 func isURIName(n string) bool {
 	p := eat.Profile{}
@@ -70,14 +70,14 @@ func isURIName(n string) bool {
 }
 
 func goodKind(k string) bool {
-	return k == "xp1" || k == "xp2" || k == "own" || k == "opt" || k == "two" || k == "str" || k == "xp1n" || k == "loca" || k == "locb"
+	return k == "xp1" || k == "xp2" || k == "own" || k == "opt" || k == "two" || k == "str" || k == "xp1n" || k == "loca" || k == "locb" || k == "near"
 }
 
 var kindType = map[string]string{"p1": "*psatoken.P1Claims", "p2": "*psatoken.P2Claims", "xp1": "*main.XP1Claims",
 	"xp2": "*main.XP2Claims", "own": "*main.XOwnClaims", "opt": "*main.XOptClaims", "two": "*main.XTwoClaims", "str": "*main.XStrClaims",
-	"xp1n": "*main.XP1Claims", "loca": "*main.claims", "locb": "*main.claims"}
+	"xp1n": "*main.XP1Claims", "loca": "*main.claims", "locb": "*main.claims", "near": "*main.XNearClaims"}
 var kindTag = map[string]string{"p1": "psa-profile", "p2": "eat-profile", "xp1": "psa-profile", "xp2": "eat-profile", "own": "own-profile", "opt": "opt-profile", "two": "eat-profile", "str": "str-profile",
-	"xp1n": "psa-profile", "loca": "la-profile", "locb": "lb-profile"}
+	"xp1n": "psa-profile", "loca": "la-profile", "locb": "lb-profile", "near": "eat-profile"}
 
 func profileOfKind(kind, name string) psatoken.IProfile {
 	switch kind {
@@ -101,6 +101,10 @@ func profileOfKind(kind, name string) psatoken.IProfile {
 		return localProfileB(name)
 	case "ptremb":
 		return XPtrProfile{name}
+	case "near":
+		return XNearProfile{name}
+	case "near265":
+		return Near265Profile{name}
 	case "noprof":
 		return NoProfProfile{name}
 	case "notag":
@@ -176,6 +180,7 @@ type regProbe struct {
 	declares []string // profile names this document mentions
 	// reference dispatch
 	c265    *string           // CBOR: text under key 265 (nil = absent)
+	c265Odd bool              // CBOR: key 265 present, but not a text string (byte string, integer, tagged)
 	weak    bool              // the property leaves the dispatch of this document open
 	payload []byte            // cose: the claims inside the envelope
 	p1claim *string           // text carried under the profile-1 profile claim (-75000 / psa-profile), when present
@@ -290,6 +295,15 @@ func buildRegProbes(names []string) []regProbe {
 		// a profile-1 shaped token naming n under its own key: dispatch sees no key 265
 		add(regProbe{name: "cbor/-75000=" + n, ser: "cbor", doc: enc(d1, false), declares: []string{n}, p1claim: &n})
 		add(regProbe{name: "json/eat-profile=" + n, ser: "json", doc: enc(d2, true), declares: []string{n}, members: map[string]string{"eat-profile": n}})
+		// the same name in another legal JSON spelling (escaped slashes, a \u escape)
+		if j := enc(d2, true); j != nil && strings.Contains(n, "/") {
+			esc := strings.Replace(strings.ReplaceAll(quote(n), "/", `\/`), `\/`, `\u002f`, 1)
+			add(regProbe{name: "json/eat-profile=" + n + " (escaped spelling)", ser: "json", doc: jsonEdit(j, "eat-profile", esc, false), declares: []string{n}, members: map[string]string{"eat-profile": n}})
+		}
+		if j := enc(d2, true); j != nil && strings.ContainsAny(n, "&<>") {
+			lit := `"` + n + `"` // written literally, where Go's encoder writes \u0026 etc.
+			add(regProbe{name: "json/eat-profile=" + n + " (literal spelling)", ser: "json", doc: jsonEdit(j, "eat-profile", lit, false), declares: []string{n}, members: map[string]string{"eat-profile": n}})
+		}
 		add(regProbe{name: "json/psa-profile=" + n, ser: "json", doc: enc(d1, true), declares: []string{n}, members: map[string]string{"psa-profile": n}, p1claim: &n})
 		// a token that is rejected part-way (client id of the wrong type) although it carries every optional claim
 		dfull := *p2
@@ -344,6 +358,22 @@ func buildRegProbes(names []string) []regProbe {
 				members: map[string]string{"eat-profile": n, "own-profile": n}})
 			add(regProbe{name: "json/opt-profile=" + n, ser: "json", doc: jsonEdit(j, "opt-profile", quote(n), false), declares: []string{n},
 				members: map[string]string{"eat-profile": n, "opt-profile": n}})
+		}
+	}
+	// key 265 present but not a text string, on an otherwise profile-1 shaped claims-set
+	{
+		dn := *p1
+		dn.ProfClaim = nil
+		if c := enc(dn, false); c != nil {
+			if h, err := readHead(c, 0); err == nil && h.Major == 5 && h.Info != 31 {
+				for label, val := range map[string][]byte{"bstr": {0x43, 1, 2, 3}, "int": {0x05}, "oid(tag 111)": {0xd8, 0x6f, 0x43, 0x2b, 0x06, 0x01}, "array": {0x81, 0x61, 'x'}} {
+					nb := append([]byte{}, encodeHead(5, h.Arg+1)...)
+					nb = append(nb, c[h.HLen:]...)
+					nb = append(nb, 0x19, 0x01, 0x09)
+					nb = append(nb, val...)
+					add(regProbe{name: "cbor/p1 body+265=<" + label + ">", ser: "cbor", doc: nb, c265Odd: true})
+				}
+			}
 		}
 	}
 	// the profile-1 profile claim present but empty
@@ -682,6 +712,9 @@ func (regWorld) Exec(prop string, t *Trace) *Result {
 			return "", false, false
 		}
 		if p.ser == "cbor" || p.ser == "cose" {
+			if p.c265Odd {
+				return "", true, true // a profile value that cannot be a registered name
+			}
 			if p.c265 == nil {
 				return "p1", true, false
 			}
